@@ -22,10 +22,9 @@ summary = ("%d seeded changes kept (each confirmed in a scratch worktree of /rep
            "sub-agent's demonstration fails with the change and passes without it); %d are caught by the quick check of their property.\n\n" % (len(rows), caught))
 if len(sys.argv) > 1 and sys.argv[1] == "--splice":
     s = open("/verif/DESIGN.md").read()
-    a = s.index("### 0.5 Seeded changes")
-    b = s.index("---\n\n## 1. The system")
-    head = s[a:].split("\n", 1)[0]
-    s = s[:a] + head + "\n\n" + summary + tab + "\n\n" + s[b:]
+    a = s.index("<!-- SEEDTABLE BEGIN -->") + len("<!-- SEEDTABLE BEGIN -->\n")
+    b = s.index("<!-- SEEDTABLE END -->")
+    s = s[:a] + summary + tab + "\n" + s[b:]
     open("/verif/DESIGN.md", "w").write(s)
     print("spliced", len(rows), "rows;", caught, "caught")
 else:
